@@ -290,6 +290,30 @@ def r4_handlers(ctx):
                           detail=f"{cref.name}.{need} {'found' if has else 'missing'}", expected=f"{need} defined along the MRO")
     ctx.floor("(step, operator) pairs", pairs, 55)
     ctx.info["dispatch_pairs"] = pairs
+    # a pass picks its tokens with isinstance(token, <classes of the step>): a token is therefore processed in the first
+    # step that lists its class *or one of its base classes* - which must be the step that lists the operator itself
+    checked = 0
+    for cfg in all_configs(ctx.repo):
+        step_classes = []
+        for ot, names in cfg.steps:
+            step_classes.append([(nm, cfg.operators[nm]) for nm in names if nm in cfg.operators])
+        for nm, cref in cfg.operators.items():
+            own = [i for i, (ot, names) in enumerate(cfg.steps) if nm in names]
+            if not own:
+                continue
+            anc = {(m.relpath, c.name) for m, c in ctx.repo.mro(cref.module, cref.node)}
+            first = None
+            via = None
+            for i, lst in enumerate(step_classes):
+                hit = [n2 for n2, c2 in lst if (c2.module.relpath, c2.node.name) in anc]
+                if hit:
+                    first, via = i, hit
+                    break
+            checked += 1
+            ctx.check(first == min(own), cfg.relpath, cfg.qual, f"operator {nm!r} is picked up by its own step (isinstance dispatch vs class hierarchy)",
+                      detail={"own_step": min(own), "first_step_matching_by_isinstance": first, "through": via},
+                      expected="no operator class derives from the class of an operator listed in an earlier step")
+    ctx.floor("operators checked against the class hierarchy", checked, 50)
 
 
 # ---------------------------------------------------------------- R5
